@@ -84,7 +84,7 @@ STRENGTHENED = {
     'C05_10': 'missed at first (subscribe drops a callable that is already registered): C05 registered a different closure per listener; in a quarter of the runs one callable is now shared by all CAs and ECU-level listeners of the stack and the number of calls is judged',
     'C12_10': 'missed at first (duplicate registrations through ControllerApplication.subscribe survive unsubscribe): C12 subscribed at the ECU only; subscribe / unsubscribe now also go through a CA of the stack',
     'C03_9': 'missed by C03 at first (caught by C02): reply latency 0 was an event 0 ns later, after the send call had returned; with the stack as originator C03 now also uses a zero-latency bus and a reference peer that answers inside its frame handler',
-    'C11_11': 'missed by C11 at first; the C02 signature recorded at import time turned out to be the genuine session-number race of the unchanged tree (415665a) that happened to show in that run, not this change (found by tools/recheck_seeded.py); C11 now runs an unrelated periodic application timer on the sending ECU in 60 % of the runs',
+    'C11_11': 'missed by C11 at first; the C02 signature recorded at import time turned out to be the genuine session-number race of the unchanged tree (415665a) that happened to show in that run, not this change (found by tools/recheck_seeded.py); C11 now runs an unrelated periodic application timer (30 or 100 ms) on the sending ECU in 40 % of the runs',
     'C09_10': 'NOT CAUGHT: needs a responder that re-requests an earlier segment with a CTS, a freedom the reference peer does not use and that neither C03 nor C09 lists among the peer\'s choices (DESIGN 10, 12.9)',
 }
 rows = []
